@@ -113,6 +113,14 @@ func dumpMsg(m *bgp.BGPUpdate) (sx.Node, sx.Node, bool) {
 	return p, p4, numok
 }
 
+func ser(a bgp.PathAttributeInterface) string {
+	b, err := a.Serialize()
+	if err != nil {
+		return "unserialisable"
+	}
+	return fmt.Sprintf("%x", b)
+}
+
 func mkUpdate(attrs ...bgp.PathAttributeInterface) *bgp.BGPUpdate {
 	all := []bgp.PathAttributeInterface{bgp.NewPathAttributeOrigin(0)}
 	all = append(all, attrs...)
@@ -131,9 +139,22 @@ func run(line string) (out string) {
 	ns := sx.MustParse(line)
 	switch ns[0].Atom {
 	case "down":
-		m := mkUpdate(bgp.NewPathAttributeAsPath(segs4(ns[1])))
+		// the attribute objects of an outgoing UPDATE are the ones the route in the table holds, and the same route is
+		// sent again (another peer, a soft reset): the conversion must leave them as they are and give the same result again
+		stored := bgp.NewPathAttributeAsPath(segs4(ns[1]))
+		before := ser(stored)
+		m := mkUpdate(stored)
 		table.UpdatePathAttrs2ByteAs(m)
 		p, p4, numok := dumpMsg(m)
+		if ser(stored) != before {
+			return "fail stored-as-path-modified-by-the-conversion"
+		}
+		m2 := mkUpdate(stored)
+		table.UpdatePathAttrs2ByteAs(m2)
+		q, q4, _ := dumpMsg(m2)
+		if q.String() != p.String() || q4.String() != p4.String() {
+			return "fail second-conversion-of-the-same-route-differs"
+		}
 		return fmt.Sprintf("ok %s %s %s", p, p4, sx.B(numok))
 	case "up":
 		attrs := []bgp.PathAttributeInterface{bgp.NewPathAttributeAsPath(segs2(ns[1]))}
@@ -170,16 +191,30 @@ func run(line string) (out string) {
 		as := uint32(ns[1].Uint())
 		addr := netip.AddrFrom4([4]byte{byte(ns[2].Uint() >> 24), byte(ns[2].Uint() >> 16), byte(ns[2].Uint() >> 8), byte(ns[2].Uint())})
 		a, _ := bgp.NewPathAttributeAggregator(as, addr)
+		before := ser(a)
 		m := mkUpdate(a)
 		table.UpdatePathAggregator2ByteAs(m)
-		var d2, d4 sx.Node = sx.A("none"), sx.A("none")
-		for _, at := range m.PathAttributes {
-			switch v := at.(type) {
-			case *bgp.PathAttributeAggregator:
-				d2 = sx.L(sx.U(uint64(v.Value.AS)), sx.U(uint64(ns[2].Uint())))
-			case *bgp.PathAttributeAs4Aggregator:
-				d4 = sx.L(sx.U(uint64(v.Value.AS)), sx.U(uint64(ns[2].Uint())))
+		aggs := func(m *bgp.BGPUpdate) (d2, d4 sx.Node) {
+			d2, d4 = sx.A("none"), sx.A("none")
+			for _, at := range m.PathAttributes {
+				switch v := at.(type) {
+				case *bgp.PathAttributeAggregator:
+					d2 = sx.L(sx.U(uint64(v.Value.AS)), sx.U(uint64(ns[2].Uint())))
+				case *bgp.PathAttributeAs4Aggregator:
+					d4 = sx.L(sx.U(uint64(v.Value.AS)), sx.U(uint64(ns[2].Uint())))
+				}
 			}
+			return
+		}
+		d2, d4 := aggs(m)
+		// as for "down": the AGGREGATOR object belongs to the stored route, which is sent again later
+		if ser(a) != before || a.Value.AS != as {
+			return "fail stored-aggregator-modified-by-the-conversion"
+		}
+		m2 := mkUpdate(a)
+		table.UpdatePathAggregator2ByteAs(m2)
+		if e2, e4 := aggs(m2); e2.String() != d2.String() || e4.String() != d4.String() {
+			return "fail second-conversion-of-the-same-route-differs"
 		}
 		if err := table.UpdatePathAggregator4ByteAs(m); err != nil {
 			return "err agg4"
